@@ -848,11 +848,79 @@ def rule_direction(model):
                   'direction multiplier', node=sb.node, ctx=sb)
     # cmp helper
     c = model.func('DT_In', 'cmp')
-    if norm(c.node.body[-1]) != 'return (a > b) - (a < b)':
+    if not _three_way(c):
         r.finding(c.where, c.node.body[-1], 'cmp() is not the three-way '
                   'comparison', node=c.node, ctx=c)
     r.instance(c.where, c.node.body[-1])
     return r
+
+
+def _three_way(fi):
+    """Does the two-parameter function return a negative / zero /
+    positive number for first < / == / > second?  Decided by evaluating
+    its body in the three scenarios (comparisons of the two parameters are
+    known, everything else is unknown)."""
+    ps = fi.params()
+    if len(ps) != 2:
+        return False
+    a, b = ps
+
+    class Unknown(Exception):
+        pass
+
+    def ev(e, sc):
+        if isinstance(e, ast.Constant) and isinstance(e.value, (int, bool)):
+            return e.value
+        if isinstance(e, ast.Compare) and len(e.ops) == 1 and isinstance(
+                e.left, ast.Name) and isinstance(
+                e.comparators[0], ast.Name):
+            l, r_ = e.left.id, e.comparators[0].id
+            if {l, r_} != {a, b}:
+                raise Unknown
+            rel = sc if l == a else {'lt': 'gt', 'gt': 'lt', 'eq': 'eq'}[sc]
+            return {ast.Lt: rel == 'lt', ast.Gt: rel == 'gt',
+                    ast.LtE: rel != 'gt', ast.GtE: rel != 'lt',
+                    ast.Eq: rel == 'eq', ast.NotEq: rel != 'eq'}.get(
+                        type(e.ops[0]), None) if type(e.ops[0]) in (
+                        ast.Lt, ast.Gt, ast.LtE, ast.GtE, ast.Eq,
+                        ast.NotEq) else (_ for _ in ()).throw(Unknown())
+        if isinstance(e, ast.BinOp) and isinstance(
+                e.op, (ast.Sub, ast.Add, ast.Mult)):
+            x, y = ev(e.left, sc), ev(e.right, sc)
+            return {ast.Sub: x - y, ast.Add: x + y,
+                    ast.Mult: x * y}[type(e.op)]
+        if isinstance(e, ast.UnaryOp) and isinstance(e.op, ast.USub):
+            return -ev(e.operand, sc)
+        if isinstance(e, ast.UnaryOp) and isinstance(e.op, ast.Not):
+            return not ev(e.operand, sc)
+        if isinstance(e, ast.IfExp):
+            return ev(e.body if ev(e.test, sc) else e.orelse, sc)
+        if isinstance(e, ast.Call) and isinstance(e.func, ast.Name) and \
+                e.func.id in ('int', 'bool') and len(e.args) == 1:
+            return int(ev(e.args[0], sc))
+        raise Unknown
+
+    def run(stmts, sc):
+        for st in stmts:
+            if isinstance(st, ast.Expr) and isinstance(
+                    st.value, ast.Constant):
+                continue
+            if isinstance(st, ast.Return):
+                if st.value is None:
+                    raise Unknown
+                return ev(st.value, sc)
+            if isinstance(st, ast.If):
+                v = run(st.body if ev(st.test, sc) else st.orelse, sc)
+                if v is not None:
+                    return v
+                continue
+            raise Unknown
+        return None
+    try:
+        lt, eq, gt = (run(fi.node.body, sc) for sc in ('lt', 'eq', 'gt'))
+    except Unknown:
+        return False
+    return None not in (lt, eq, gt) and lt < 0 and eq == 0 and gt > 0
 
 
 def _inl(rule):
